@@ -14,8 +14,10 @@ import (
 // ---- seeded generator of structured packages
 
 var pkgNames = []string{"foo.v1", "foo.bar.v1", "ab.v2", "acme.billing.v1", "x.v10"}
-var schemaNames = []string{"Bar", "Node", "Tree", "Leaf", "Item", "Thing", "Widget", "Part", "Account", "Address", "Tag", "Money", "Shape", "Color", "Mode", "Kind2", "HTTPThing", "A"}
-var fieldNames = []string{"name", "fooId", "barID", "x", "a1", "foo_bar", "createdAt", "isOK", "id", "nodeId", "itemCount", "v2Field", "q", "child", "children", "parent", "items", "value", "kind", "status", "owner", "ref", "note", "amount", "when", "data2", "httpCode", "b"}
+var schemaNames = []string{"Bar", "Node", "Tree", "Leaf", "Item", "Thing", "Widget", "Part", "Account", "Address", "Tag", "Money", "Shape", "Color", "Mode", "Kind2", "HTTPThing", "A",
+	// short names that also exist in the built-in packages a list method / an entity pulls in (j5.list.v1, j5.state.v1, j5.auth.v1)
+	"Filter", "Sort", "Range", "Search", "Field", "Actor", "Cause", "Action"}
+var fieldNames = []string{"name", "fooId", "barID", "x", "a1", "foo_bar", "createdAt", "isOK", "id", "nodeId", "itemCount", "v2Field", "q", "child", "children", "parent", "items", "value", "kind", "status", "owner", "ref", "note", "amount", "when", "data2", "httpCode", "b", "thingID", "userURL"}
 var serviceNames = []string{"Foo", "Bar", "Admin", "Thing", "Widget", "Report", "FooQuery", "FooCommand", "X"}
 var methodNames = []string{"GetFoo", "ListFoos", "CreateFoo", "UpdateFoo", "DeleteFoo", "PatchFoo", "Download", "Search", "Get", "Put", "Do", "RunX", "A", "ListNodes", "ListItems", "FooBar"}
 var topicNames = []string{"Ping", "Notify", "Work", "FooEvents2", "Audit", "Sync", "fooBar", "foo_bar", "HTTPPing", "pingV2"}
@@ -595,7 +597,7 @@ func (g *genCtx) method(name string, hasBase bool) *Method {
 		m.HasResp = true
 		m.Resp = g.props(h.Rng.IntN(4), 0, false)
 	}
-	if h.Chance(1, 60) && !contains(propNames(m.Req), "query") {
+	if h.Chance(1, 150) && !contains(propNames(m.Req), "query") {
 		// repaired finding client:err:list-response-shape: a j5.list.v1.QueryRequest property on a method
 		// whose response is (most likely) not list shaped; the compiler has to reject it (fix 57821b0)
 		m.Req = append(m.Req, &Prop{Name: "query", T: &Type{K: "X", Pkg: "j5.list.v1", Name: "QueryRequest"}})
